@@ -485,6 +485,16 @@ def run(check, repo, tier):
                 n_core += 1
     check.floor(n_core >= 200, f"C04.R1: only {n_core} obligations decided for receiver GCodeCore (floor 200)")
     check.rule("R6", "translate/scale/rotate/reflect/mirror chain the textbook matrix of their arguments")
+    # the formatter contract this check relies on (a coordinate word is a faithful fixed-point rendering of the value):
+    # discharged here as well, by the formatter rules of C08
+    check.rule("R7", "formatter contract: number() renders its argument in fixed point at the configured precision behind a finiteness guard, "
+                     "parameters() sends every numeric value through number() (rules R2, R3, R4 of C08)")
+    from . import c08
+    from .c13 import _Remap
+    _rm = _Remap(check, {"R2": "R7", "R3": "R7", "R4": "R7"})
+    _rm.floor = lambda cond, message: check.floor(cond, message.replace("C08.", "C04<-C08."))
+    c08.check_number(_rm, cr.program)
+    c08.check_parameters(_rm, cr.program)
     n4 = transformer_rules(check, cr.program)
     n4 += constructor_rules(check, cr.program)
     check.analysed = dict(cr.stats, transformer_paths=n4, gcodecore=core.stats)
